@@ -295,3 +295,22 @@ def it_advance(it):
     """ITSTATE 8 bits"""
     it = bv(it, 8)
     return z3.If(bits(it, 2, 0) == 0, BV(0, 8), cat(bits(it, 7, 5), bits(it, 3, 0), BV(0, 1)))
+
+
+def sel8(arr, a, depth=0):
+    """Select(arr, a) with select-over-store resolved syntactically where the index difference is a numeral"""
+    while True:
+        if z3.is_app(arr) and arr.decl().kind() == z3.Z3_OP_STORE:
+            base, idx, val = arr.arg(0), arr.arg(1), arr.arg(2)
+            d = z3.simplify(a - idx)
+            if z3.is_bv_value(d):
+                if d.as_long() == 0:
+                    return val
+                arr = base
+                continue
+            if depth > 64:
+                return z3.Select(arr, a)
+            return z3.If(a == idx, val, sel8(base, a, depth + 1))
+        if z3.is_app(arr) and arr.decl().kind() == z3.Z3_OP_ITE and depth <= 64:
+            return z3.If(arr.arg(0), sel8(arr.arg(1), a, depth + 1), sel8(arr.arg(2), a, depth + 1))
+        return z3.Select(arr, a)
